@@ -487,12 +487,21 @@ func checkC10(c *Check) {
 				}
 				// very short words of the emitted scripts (loop counters and scratch names of helpers such as i, n, c, l)
 				// are tried on every unmangled identifier of the role, not on one
+				// the target differs from another identifier of the program only in letter case: its own class
+				clFor := func(victim string, cl string) string {
+					for o := range b.own {
+						if o != victim && strings.EqualFold(o, to) {
+							return "case-variant"
+						}
+					}
+					return cl
+				}
 				short := len(to) <= 2 && (harvest[to] == "bash-script-word" || harvest[to] == "batch-script-word") && (role == "global" || role == "func" || role == "lib-global")
 				if short {
 					for _, f2 := range cands {
 						if f2 != from {
-							classCount[cl+"(short, all-candidates)"]++
-							jobs = append(jobs, job{bi, role, f2, to, cl})
+							classCount[clFor(f2, cl)+"(short, all-candidates)"]++
+							jobs = append(jobs, job{bi, role, f2, to, clFor(f2, cl)})
 						}
 					}
 				}
@@ -502,8 +511,8 @@ func checkC10(c *Check) {
 							break // quick tier: a near-miss name visits three identifiers of the role
 						}
 						if f2 != from {
-							classCount[cl+"(all-candidates)"]++
-							jobs = append(jobs, job{bi, role, f2, to, cl})
+							classCount[clFor(f2, cl)+"(all-candidates)"]++
+							jobs = append(jobs, job{bi, role, f2, to, clFor(f2, cl)})
 						}
 					}
 				}
